@@ -40,13 +40,28 @@ namespace BitSerializer::Detail
 			return true;
 		}
 
-		if (pos != mStreamPos)
+		if (pos == mStreamPos)
 		{
-			// Reset EOF/fail bits left after reading the last chunk, otherwise `seekg()` has no effect
-			mStream.clear(mStream.rdstate() & std::ios_base::badbit);
+			// Invalidate cache
+			mStartDataPtr = mEndDataPtr = mBuffer;
+			ReadNextChunk();
+			return true;
 		}
-		if (pos == mStreamPos || !mStream.seekg(static_cast<std::streamoff>(pos)).fail())
+
+		// Reset EOF/fail bits left after reading the last chunk, otherwise `seekg()` has no effect
+		mStream.clear(mStream.rdstate() & std::ios_base::badbit);
+		// Some streams (like file streams) allow to set a position beyond the end, therefore the byte in front of the target position
+		// is located and read: the position right after the last byte is valid, but not the ones after it.
+		if (!mStream.seekg(static_cast<std::streamoff>(pos != 0 ? pos - 1 : 0)).fail())
 		{
+			if (pos != 0 && mStream.get() == std::char_traits<char>::eof())
+			{
+				// Return the stream to the end of the cached data (the current position stays as is) and leave it in the failed state
+				mStream.clear(mStream.rdstate() & std::ios_base::badbit);
+				mStream.seekg(static_cast<std::streamoff>(mStreamPos));
+				mStream.setstate(std::ios_base::failbit);
+				return false;
+			}
 			mStreamPos = pos;
 			// Invalidate cache
 			mStartDataPtr = mEndDataPtr = mBuffer;
